@@ -87,6 +87,8 @@ def gen(draw):
     c["ps_label"] = draw(st.sampled_from(["first", "first", "last", "arbitrary"]))
     c["hp_opts"] = {"only_indels": draw(st.integers(0, 3)) == 0, "ignore_read_groups": len(c["samples"]) == 1 and draw(st.integers(0, 3)) == 0}
     c["tag_reads_of_sets"] = draw(st.sampled_from(["all", "all", "first-set-only"]))
+    # the reads may carry HP/PS/PC from an earlier haplotag run against a different phasing (other set ids, other haplotypes)
+    c["pretagged"] = draw(st.integers(0, 2)) == 0
     return c
 
 
@@ -117,6 +119,10 @@ class PipelinePart:
             return
         ref = G.write_fasta(case["contigs"], os.path.join(d, "ref.fa"))
         vcfgz, truth = write_phased_vcf(case, os.path.join(d, "phased.vcf"))
+        if case.get("pretagged"):
+            for i, r in enumerate(reads):
+                r["tags"] = dict(r.get("tags") or {}, HP=1 + i % 2, PS=7 + i % 3, PC=50)
+            ctx.label("reads-carry-tags-of-an-earlier-run")
         bam = G.write_bam(case, reads, os.path.join(d, "reads.bam"))
         tagged = os.path.join(d, "tagged.bam")
         run_haplotag_tool(vcfgz, bam, tagged, ref, {})
